@@ -596,7 +596,144 @@ def run_copy(case):
     S.outcome(("copy", how, velocity, channel))
 
 
+# ---------------------------------------------------------------------------------------
+# history: one Note object under sequences of mutators, observed after every step
+# ---------------------------------------------------------------------------------------
+import math
+
+
+class NoteHistorySpec(engine.BfsSpec):
+    """bfs over the mutators of ONE Note object.  After every step everything observable (int, the six
+    comparisons against fixed probes, Hz, printed form, equality with a freshly built note) must be the
+    function of the note's current (name, octave) that the statement defines -- whatever was called or
+    observed before.  canon = the whole instance state of the note (so a remembered value is state)."""
+
+    ACTIONS = ([["set", "C", 4], ["set", "B#", 3], ["set", "Cb", 5], ["text", "D-5"], ["text", "Bb-2"], ["text", "B#-4"],
+                ["from_int", 0], ["from_int", 59], ["from_int", 60], ["from_hertz", 440.0], ["from_hertz", 261.6255653005986],
+                ["augment"], ["diminish"], ["octave_up"], ["octave_down"], ["change_octave", -2],
+                ["transpose", "3", True], ["transpose", "b2", False], ["helmholtz", "c'"], ["helmholtz", "Bb,"] ])
+
+    def init(self):
+        return {"n": Note("G", 4), "want": ("G", 4)}
+
+    def actions(self):
+        return self.ACTIONS
+
+    def step(self, st, act, check=True):
+        n = st["n"]
+        k = act[0]
+        want = None                      # (name, octave) when the statement fixes it, else only the pitch number
+        want_number = None
+        if k == "set":
+            n.set_note(act[1], act[2])
+            want = (act[1], act[2])
+        elif k == "text":
+            n.set_note(act[1])
+            nm, o = act[1].split("-")
+            want = (nm, int(o))
+        elif k == "from_int":
+            n.from_int(act[1])
+            want_number = act[1]
+        elif k == "from_hertz":
+            n.from_hertz(act[1])
+            want_number = int(round(57 + 12 * math.log(act[1] / 440.0, 2)))
+        elif k == "augment":
+            want_number = number_of(n) + 1
+            n.augment()
+        elif k == "diminish":
+            want_number = number_of(n) - 1
+            n.diminish()
+        elif k == "octave_up":
+            want = (n.name, n.octave + 1)
+            n.octave_up()
+        elif k == "octave_down":
+            want = (n.name, max(0, n.octave - 1))
+            n.octave_down()
+        elif k == "change_octave":
+            want = (n.name, max(0, n.octave + act[1]))
+            n.change_octave(act[1])
+        elif k == "transpose":
+            num, semis = P.shorthand_semitones(act[1])
+            want_number = number_of(n) + (semis if act[2] else -semis)
+            n.transpose(act[1], act[2])
+        elif k == "helmholtz":
+            n.from_shorthand(act[1])
+            want = {"c'": ("C", 4), "Bb,": ("Bb", 1)}[act[1]]
+        else:
+            raise engine.HarnessError("bad action %r" % (act,))
+        if check:
+            S = engine.S
+            if want is not None and attrs(n) != want:
+                S.problem("%r: (name, octave) afterwards" % (act,), list(want), list(attrs(n)))
+            if want_number is not None and number_of(n) != want_number:
+                S.problem("%r: pitch number (from the attributes) afterwards" % (act,), want_number, number_of(n))
+
+    def invariant(self, st):
+        S = engine.S
+        n = st["n"]
+        num = number_of(n)
+        if not isinstance(num, int):
+            S.problem("note attributes", "a name and an integer octave", num)
+            return
+        S.trans(8)
+        if int(n) != num:
+            S.problem("int(note) vs 12*octave + letter + accidentals of its current attributes", num, int(n), detail={"attrs": attrs(n)})
+        fresh = Note(n.name, n.octave)
+        if not (n == fresh) or (n != fresh):
+            S.problem("note == Note(its own name, its own octave)", True, False, detail={"attrs": attrs(n)})
+        for pn, po in (("C", 4), ("B", 3), ("B#", 3), ("A", 9), ("C", 0)):
+            probe = Note(pn, po)
+            pnum = R.pitch_number(pn, po)
+            row = (n < probe, n <= probe, n == probe, n != probe, n > probe, n >= probe)
+            exp = (num < pnum, num <= pnum, num == pnum, num != pnum, num > pnum, num >= pnum)
+            if row != exp:
+                S.problem("comparisons of the note with %s-%d" % (pn, po), list(exp), list(row), detail={"attrs": attrs(n)})
+        hz = n.to_hertz()
+        ref = R.hertz(num)
+        if abs(hz - ref) > 1e-9 * ref:
+            S.problem("to_hertz() vs the pitch of its current attributes", ref, hz, detail={"attrs": attrs(n)})
+        printed = repr(n)
+        if ("%s-%d" % (n.name, n.octave)) not in printed:
+            S.problem("repr(note)", "contains %s-%d" % (n.name, n.octave), printed)
+        S.outcome((attrs(n), int(n)))
+        S.count("note_history_states_observed")
+
+    def canon(self, st):
+        return engine.deep_key(st["n"])
+
+
+def run_note_history(case):
+    engine.bfs_execute(NoteHistorySpec(), case["history"], check_prefix=True)
+
+
+# ---------------------------------------------------------------------------------------
+# hertz_pairs: the same frequency read under two standard pitches, one after the other
+# ---------------------------------------------------------------------------------------
+def run_hertz_pairs(case):
+    """case = [key number k, sp1, sp2]: f = 440*2^((k-57)/12) read with from_hertz(f, sp1) and then
+    from_hertz(f, sp2); each must give the note nearest to f under *its* standard pitch."""
+    S = engine.S
+    k, sp1, sp2 = case
+    f = 440.0 * 2 ** ((k - 57) / 12.0)
+    for sp in (sp1, sp2):
+        x = 57 + 12 * math.log(f / sp, 2)
+        want = int(round(x))
+        if abs(x - want) > 0.4 or want < 0:
+            S.count("hertz_pairs_outside_40_cents_skipped")
+            continue
+        n = Note()
+        n.from_hertz(f, sp)
+        S.trans(1)
+        S.count("hertz_pairs_checked")
+        got = number_of(n)
+        S.outcome((k, sp, got))
+        if got != want:
+            S.problem("from_hertz(%r, %r) [asked as part of the sequence sp=%r then sp=%r]" % (f, sp, sp1, sp2), want, got)
+
+
 CLAUSES = {
+    "history": run_note_history,
+    "hertz_pairs": run_hertz_pairs,
     "pitch": run_pitch,
     "from_int": run_from_int,
     "compare": run_compare,
@@ -641,6 +778,13 @@ def explore(ctx):
         ctx.bound("detune_cents", {"from": -40, "to": 40, "step": step})
         ctx.product("hertz", sps, lambda sp: itertools.chain((["int", i, sp, step] for i in range(0, 128)),
                                                               (["name", nm, sp] for nm in names)))
+    if ctx.want("history"):
+        d = ctx.pick(3, 4)
+        ctx.bound("note_history_depth", d)
+        ctx.bfs("history", NoteHistorySpec(), d, label="history of one Note object")
+    if ctx.want("hertz_pairs"):
+        sps = ctx.pick(STANDARD_PITCHES_Q, STANDARD_PITCHES_T)
+        ctx.product("hertz_pairs", list(sps), lambda sp1: ([k, sp1, sp2] for k in range(0, 128) for sp2 in sps if sp2 != sp1))
     if ctx.want("helmholtz"):
         ctx.product("helmholtz", octaves, _gen_pitch)
     if ctx.want("bounds"):
